@@ -63,6 +63,12 @@ func check(run *stats.Run, f stats.Failer, c Case) verdict {
 		return v
 	}
 	store := c.Store
+	if prog.HashKeyed(store) && stats.Exclusion("K08-hash-colliders") && usesCollect(c.Gen.Prog) {
+		// The element order of a collected list depends on the run, and so does its hash ([1, 0] and [1]
+		// collide, [0, 1] and [1] do not): the collision test below cannot predict it.
+		store = "multiindexedarray"
+		run.Excluded("K08-hash-colliders")
+	}
 	if prog.HashKeyed(store) && stats.Exclusion("K08-hash-colliders") {
 		seen := map[string]map[uint64]bool{}
 		for _, fact := range ref.Model {
@@ -142,6 +148,19 @@ func check(run *stats.Run, f stats.Failer, c Case) verdict {
 		v.labels = append(v.labels, "group>=2")
 	}
 	return v
+}
+
+func usesCollect(p prog.Program) bool {
+	for _, r := range p.Rules {
+		if r.Do != nil {
+			for _, l := range r.Do.Lets {
+				if l.Fn.Fn == "fn:collect_distinct" {
+					return true
+				}
+			}
+		}
+	}
+	return false
 }
 
 func atomsText(as []prog.Atom) string {
